@@ -13,7 +13,7 @@ type Cmd = simexec.Cmd
 type Error = simexec.Error
 type ExitError = simexec.ExitError
 
-func LookPath(file string) (string, error) { return simexec.LookPath(file) }
+func LookPath(file string) (string, error)    { return simexec.LookPath(file) }
 func Command(name string, arg ...string) *Cmd { return simexec.Command(name, arg...) }
 func CommandContext(ctx context.Context, name string, arg ...string) *Cmd {
 	return simexec.CommandContext(ctx, name, arg...)
